@@ -328,6 +328,19 @@ def main():
                 continue
             jobs = s.get("jobs", 1)
             impl, model, spec = run_cases(cases, s.get("harness", which), jobs)
+            if jobs > 1:
+                # suites with jobs > 1 use real sockets and real time: an outlier under load is
+                # re-run alone, and counts only if it fails again (2 of 3)
+                retried = 0
+                for k, (c, i, m) in enumerate(zip(cases, impl, model)):
+                    if i not in m.split(" || ") and retried < 40:
+                        retried += 1
+                        again = [run_cases([c], s.get("harness", which))[0][0] for _ in range(2)]
+                        good = [a for a in again if a in m.split(" || ")]
+                        if len(good) == 2:
+                            impl[k] = good[0]
+                if retried:
+                    log(f"real-time suite {s.get('gen')}: {retried} outlier(s) re-run alone")
             evaluations += len(cases)
             for c, i, m, sp in zip(cases, impl, model, spec):
                 for k in cfg["classify"](c, i):
